@@ -247,6 +247,16 @@ fn config_modes(viol: &mut Vec<Value>) -> Value {
 struct Lane {
     // per thread: one cluster per (mode, family)
     clusters: HashMap<(String, bool), (kit::ClusterAddrs, kit::Recorder)>,
+    // lanes of the late-backend behaviours: one cluster per mode whose backend can hold its accept queue full
+    gated: HashMap<String, (kit::ClusterAddrs, kit::GatedRecorder)>,
+}
+
+#[derive(Default, Clone, Copy)]
+struct Pace {
+    seps: usize,
+    seps_ok: usize,
+    late: usize,           // behaviours with a late backend
+    late_confirmed: usize, // ... whose backend connection really arrived >= 0.8 s after the client's
 }
 
 struct Shared {
@@ -319,12 +329,23 @@ fn classify(expected: &[u8], actual: &[u8], g: usize) -> &'static str {
     }
 }
 
-/// Execute one behaviour. Ok(confirmed separations) or Err((class, detail)).
-fn run_behaviour(sh: &Shared, lane: &Lane, b: &Value, idx: usize) -> Result<(usize, usize), (String, Value)> {
+/// Execute one behaviour. Ok(pacing confirmations) or Err((class, detail)).
+fn run_behaviour(sh: &Shared, lane: &Lane, b: &Value, idx: usize) -> Result<Pace, (String, Value)> {
     let mode = b["mode"].as_str().unwrap();
     let h = &b["hdr"];
     let v6 = b["sfam"] == "INET6";
-    let (cl, rec) = lane.clusters.get(&(mode.to_string(), v6)).ok_or(("setup".to_string(), json!("no cluster")))?;
+    // late backend: the spec's Backend_Up happened after `up_at` client segments
+    let up_at = b["upAt"].as_u64().unwrap_or(0) as usize;
+    let late = b["slowc"] == true && up_at > 0;
+    let gate: Option<&kit::GatedRecorder> = if late { lane.gated.get(mode).map(|x| &x.1) } else { None };
+    let (cl, rec): (&kit::ClusterAddrs, &kit::Recorder) = if late {
+        let g = lane.gated.get(mode).ok_or(("setup".to_string(), json!("no gated cluster")))?;
+        (&g.0, &g.1.rec)
+    } else {
+        let c = lane.clusters.get(&(mode.to_string(), v6)).ok_or(("setup".to_string(), json!("no cluster")))?;
+        (&c.0, &c.1)
+    };
+    let mut pace = Pace::default();
     let mut rng = Rng(sh.seed ^ (idx as u64).wrapping_mul(0xA24B_AED4_963E_E407));
     let hlen = b["hlen"].as_u64().unwrap() as usize;
     let pay = b["pay"].as_u64().unwrap() as usize;
@@ -346,13 +367,29 @@ fn run_behaviour(sh: &Shared, lane: &Lane, b: &Value, idx: usize) -> Result<(usi
     // spec position -> byte offset (end-exclusive offset of position p)
     let off = |pos: usize| -> usize { if pos <= hlen { pos } else { hlen + (pos - hlen) * unit } };
 
+    let held = gate.map(|g| g.hold()).unwrap_or(false);
+    struct Release<'a>(Option<&'a kit::GatedRecorder>);
+    impl Drop for Release<'_> {
+        fn drop(&mut self) {
+            if let Some(g) = self.0 {
+                g.release();
+            }
+        }
+    }
+    let mut release = Release(gate); // whatever happens the backend accepts again afterwards
     let n0 = rec.count();
+    let t_conn = Instant::now();
     let mut c = TcpStream::connect(cl.front).map_err(|e| ("connect".to_string(), json!(e.to_string())))?;
     let _ = c.set_nodelay(true);
     let local = c.local_addr().unwrap();
+    if late {
+        // lock-step: the client writes only while sozu is parked. The first event of a session (the socket is
+        // writable) makes sozu start its backend connection and return; let that happen before the first segment,
+        // otherwise the segment is simply read together with the next one (another, also generated, segmentation)
+        kit::find_fd_within(cl.front, local, Duration::from_secs(2));
+        std::thread::sleep(Duration::from_millis(25));
+    }
     let mut pos = 0usize;
-    let mut seps = 0usize;
-    let mut seps_ok = 0usize;
     let segs: Vec<usize> = b["segs"].as_array().unwrap().iter().map(|x| x.as_u64().unwrap() as usize).collect();
     let mut write_failed = false;
     for (k, s) in segs.iter().enumerate() {
@@ -376,15 +413,43 @@ fn run_behaviour(sh: &Shared, lane: &Lane, b: &Value, idx: usize) -> Result<(usi
         if write_failed {
             break;
         }
-        if k + 1 < segs.len() {
-            seps += 1;
+        if late && k + 1 < up_at {
+            // the backend does not accept yet: sozu reads only what its current state is interested in, so a drained
+            // socket cannot be waited for; the segments only have to be separate writes that precede the accept
+            kit::wait_drained(&cl.front, &local, Duration::from_millis(20));
+            std::thread::sleep(Duration::from_millis(3));
+        } else if late && k + 1 == up_at {
+            // everything the spec's client wrote before Backend_Up is written: let sozu process it, then accept.
+            // sozu's SYN was dropped (accept queue full); its retransmission (1 s after the first) gets through.
+            kit::wait_drained(&cl.front, &local, Duration::from_millis(40));
+            std::thread::sleep(Duration::from_millis(25));
+            if let Some(g) = release.0.take() {
+                g.release();
+            }
+            // "sozu parked again": its connection is accepted and what it had to write is written. sozu has a
+            // connection under way iff it is past the expect state (send / relay connect at once)
+            let so_far: usize = segs[..up_at].iter().sum();
+            let connecting = b["closes"] != true && (mode != "expect" || so_far >= hlen);
+            if connecting {
+                pace.late += 1;
+                let arrived = rec.wait(Duration::from_secs(9), |s| s.conns.len() > n0 + 1 || s.conns[n0.min(s.conns.len())..].iter().any(|c| !c.bytes.is_empty()));
+                if held && arrived && t_conn.elapsed() >= Duration::from_millis(800) {
+                    pace.late_confirmed += 1;
+                }
+            }
+            std::thread::sleep(Duration::from_millis(30));
+        } else if k + 1 < segs.len() {
+            pace.seps += 1;
             if kit::wait_drained(&cl.front, &local, Duration::from_millis(60)) {
-                seps_ok += 1;
+                pace.seps_ok += 1;
             }
             std::thread::sleep(Duration::from_micros(300));
         } else {
             kit::wait_drained(&cl.front, &local, Duration::from_millis(60));
         }
+    }
+    if let Some(g) = release.0.take() {
+        g.release(); // (a write failed before the accept point)
     }
     // prediction
     let g = b["g"].as_u64().unwrap() as usize;
@@ -402,13 +467,16 @@ fn run_behaviour(sh: &Shared, lane: &Lane, b: &Value, idx: usize) -> Result<(usi
     let closes = b["closes"].as_bool().unwrap_or(false);
     let describe = |got: &Vec<(Vec<u8>, bool, Option<String>)>| -> Value {
         json!({"mode":mode,"hdr":h,"sfam":b["sfam"],"pay":pay,"unit":unit,"segs":segs,"expected_len":expected.len(),
+               "backend_accepts_after_segment": if late { json!(up_at) } else { Value::Null }, "accept_queue_held": held,
                "backend_conns": got.iter().map(|(x, eof, err)| json!({"len":x.len(),"eof":eof,"err":err,
                     "head": x.iter().take(64).collect::<Vec<_>>()})).collect::<Vec<_>>(),
                "expected_head": expected.iter().take(64).collect::<Vec<_>>(), "client": local.to_string(), "listener": cl.front.to_string()})
     };
     if !expected.is_empty() {
         let want = expected.len();
-        let okk = rec.wait(Duration::from_secs(3), |s| s.conns.len() > n0 && s.conns[n0..].iter().any(|c| c.bytes.len() >= want));
+        // a late backend: the SYN retransmissions come 1 s, 3 s, 7 s after the first SYN
+        let patience = Duration::from_secs(if late { 8 } else { 3 });
+        let okk = rec.wait(patience, |s| s.conns.len() > n0 && s.conns[n0..].iter().any(|c| c.bytes.len() >= want));
         if !okk {
             if let Some((k, m)) = worker_state(sh) {
                 sh.dead.store(true, Ordering::SeqCst);
@@ -475,7 +543,7 @@ fn run_behaviour(sh: &Shared, lane: &Lane, b: &Value, idx: usize) -> Result<(usi
         let class = classify(&expected, &actual, g);
         return Err((class.into(), describe(&got)));
     }
-    Ok((seps, seps_ok))
+    Ok(pace)
 }
 
 /// The expect machine also fronts HTTP listeners (expect_proxy = true): the same behaviours with an
@@ -532,6 +600,8 @@ fn main() {
     let threads: usize = arg("--threads", "8").parse().unwrap_or(8);
     let per_class: usize = arg("--per-class", "6").parse().unwrap_or(6);
     let slow_max: usize = arg("--slow", "6").parse().unwrap_or(6);
+    let late_max: usize = arg("--late", "96").parse().unwrap_or(96);
+    let late_threads: usize = arg("--late-threads", "16").parse().unwrap_or(16);
     let front_timeout: u32 = arg("--front-timeout", "2").parse().unwrap_or(1);
     let only_codec = arg("--only", "") == "codec";
 
@@ -569,23 +639,39 @@ fn main() {
         if b["sfam"] == "INET6" && !v6 {
             continue;
         }
-        groups.entry(format!("{}|{}|{}|{}", b["mode"], class_key(&b["hdr"]), b["pay"], b["sfam"])).or_default().push(i);
+        let tag = if b["slowc"] == true { "late" } else { "" };
+        groups.entry(format!("{}|{}|{}|{}|{}", b["mode"], class_key(&b["hdr"]), b["pay"], b["sfam"], tag)).or_default().push(i);
     }
     let mut rng = Rng(seed);
     let mut chosen: Vec<usize> = Vec::new();
     let mut slow: Vec<usize> = Vec::new();
+    // late-backend behaviours cost >= 1 s each (SYN retransmission): rationed, on lanes of their own
+    let mut late_must: Vec<usize> = Vec::new();
+    let mut late_pool: Vec<usize> = Vec::new();
     for (_, idxs) in groups.iter() {
         let mut pool: Vec<usize> = Vec::new();
         for &i in idxs {
             let b = &behs[i];
             let is_slow = b["slow"] == true;
             if is_slow {
-                slow.push(i);
+                if b["slowc"] != true {
+                    slow.push(i);
+                }
                 continue;
             }
             let segs = b["segs"].as_array().unwrap();
             let hlen = b["hlen"].as_u64().unwrap();
             let mandatory = segs.len() == 1 || (segs.len() == 2 && segs[0].as_u64() == Some(hlen));
+            if b["slowc"] == true {
+                let up = b["upAt"].as_u64().unwrap_or(0) as usize;
+                if up == 0 {
+                    continue; // the backend accepts from the start: the ordinary behaviours
+                }
+                // per class: the backend accepts after the whole stream was written in the two canonical
+                // segmentations (one write; header, then payload)
+                if mandatory && up == segs.len() && b["closes"] != true { late_must.push(i) } else if b["closes"] != true { late_pool.push(i) }
+                continue;
+            }
             if mandatory { chosen.push(i) } else { pool.push(i) }
         }
         for _ in 0..per_class.min(pool.len()) {
@@ -600,12 +686,23 @@ fn main() {
     }
     // slow ones first so that they overlap with the rest
     chosen.sort_by_key(|&i| (!(behs[i]["slow"] == true), i));
+    let late_total = late_must.len() + late_pool.len();
+    let mut late_chosen: Vec<usize> = Vec::new();
+    while late_chosen.len() < late_max && !late_must.is_empty() {
+        let k = rng.below(late_must.len() as u64) as usize;
+        late_chosen.push(late_must.swap_remove(k));
+    }
+    while late_chosen.len() < late_max && !late_pool.is_empty() {
+        let k = rng.below(late_pool.len() as u64) as usize;
+        late_chosen.push(late_pool.swap_remove(k));
+    }
 
     let mut executed = 0usize;
     let mut http_executed = 0usize;
     let mut unix_closed = 0usize;
     let mut seps = 0usize;
     let mut seps_ok = 0usize;
+    let (mut late, mut late_ok) = (0usize, 0usize);
     let mut samples: Vec<Value> = Vec::new();
     let mut setup_err: Option<String> = None;
     if !only_codec && !chosen.is_empty() {
@@ -639,7 +736,33 @@ fn main() {
                     }
                 }
             }
-            lanes.push(Lane { clusters });
+            lanes.push(Lane { clusters, gated: HashMap::new() });
+        }
+        // lanes of the late-backend behaviours (connect_timeout 20 s: sozu must not give up before the SYN
+        // retransmission gets through)
+        let mut late_lanes: Vec<Lane> = Vec::new();
+        if !late_chosen.is_empty() && setup_err.is_none() {
+            'late: for t in 0..late_threads.min(late_chosen.len()) {
+                let mut gated = HashMap::new();
+                for mode in ["send", "expect", "relay"] {
+                    match kit::add_tcp_cluster_ct(&mut w, &format!("c18-late-{mode}-{t}"), kit::mode_of(mode), false, Some(front_timeout.max(30)), Some(20)) {
+                        Ok(cl) => match kit::GatedRecorder::start(cl.back) {
+                            Ok(r) => {
+                                gated.insert(mode.to_string(), (cl, r));
+                            }
+                            Err(e) => {
+                                setup_err = Some(format!("gated backend bind: {e}"));
+                                break 'late;
+                            }
+                        },
+                        Err(e) => {
+                            setup_err = Some(e);
+                            break 'late;
+                        }
+                    }
+                }
+                late_lanes.push(Lane { clusters: HashMap::new(), gated });
+            }
         }
         // HTTP listener with expect_proxy for the http-expect leg
         let mut http_leg: Option<(SocketAddr, kit::Recorder)> = None;
@@ -669,10 +792,14 @@ fn main() {
             let next = Arc::new(AtomicUsize::new(0));
             let chosen = Arc::new(chosen);
             let behs = Arc::new(behs);
-            let results: Arc<Mutex<Vec<(usize, Result<(usize, usize), (String, Value)>)>>> = Arc::new(Mutex::new(Vec::new()));
+            let results: Arc<Mutex<Vec<(usize, Result<Pace, (String, Value)>)>>> = Arc::new(Mutex::new(Vec::new()));
             let mut hs = Vec::new();
-            for lane in lanes {
-                let (sh, next, chosen, behs, results) = (sh.clone(), next.clone(), chosen.clone(), behs.clone(), results.clone());
+            let late_next = Arc::new(AtomicUsize::new(0));
+            let late_chosen = Arc::new(late_chosen);
+            let work: Vec<(Lane, Arc<AtomicUsize>, Arc<Vec<usize>>)> = late_lanes.into_iter().map(|l| (l, late_next.clone(), late_chosen.clone()))
+                .chain(lanes.into_iter().map(|l| (l, next.clone(), chosen.clone()))).collect();
+            for (lane, next, chosen) in work {
+                let (sh, behs, results) = (sh.clone(), behs.clone(), results.clone());
                 hs.push(std::thread::spawn(move || {
                     loop {
                         if sh.dead.load(Ordering::SeqCst) {
@@ -699,9 +826,11 @@ fn main() {
             for (i, r) in results.lock().unwrap().drain(..) {
                 executed += 1;
                 match r {
-                    Ok((a, b)) => {
-                        seps += a;
-                        seps_ok += b;
+                    Ok(p) => {
+                        seps += p.seps;
+                        seps_ok += p.seps_ok;
+                        late += p.late;
+                        late_ok += p.late_confirmed;
                         let bh = &behs[i];
                         if bh["hdr"]["fam"] == "UNIX" && bh["hdr"]["kind"] == "ok" && bh["mode"] != "send" && bh["closes"] == true
                             && bh["hlen"].as_u64().unwrap_or(999) <= 232 {
@@ -741,9 +870,16 @@ fn main() {
                             && (h["fam"] == "INET" || h["fam"] == "INET6")) {
                             continue;
                         }
+                        if b["slowc"] == true {
+                            continue;
+                        }
                         let segs = b["segs"].as_array().unwrap();
                         let mandatory = segs.len() == 1 || (segs.len() == 2 && segs[0].as_u64() == Some(hl));
                         if !mandatory && rng2.below(40) != 0 {
+                            continue;
+                        }
+                        // of the sweep over all header lengths: the lengths next to the limit, and one in 12 of the others
+                        if b["gen"] == "sweep" && hl < 226 && rng2.below(12) != 0 {
                             continue;
                         }
                         let concs = &sh.codec[&class_key(h)];
@@ -775,7 +911,7 @@ fn main() {
     emit(&json!({"kind":"summary","codec_classes":classes,"codec_checks":codec_checks,"codec_s":codec_s,
                  "behaviours_in":groups.values().map(|v| v.len()).sum::<usize>(),"groups":groups.len(),
                  "config_modes":cfg_modes,"executed":executed,"http_expect_executed":http_executed,"timeout_class_total":n_slow_total,"unix_closed":unix_closed,
-                 "separations":seps,"separations_confirmed":seps_ok,"ipv6":v6,"probe":format!("{probe:?}"),
+                 "separations":seps,"separations_confirmed":seps_ok,"late_backend_total":late_total,"late_backend":late,"late_backend_confirmed":late_ok,"ipv6":v6,"probe":format!("{probe:?}"),
                  "violations":viol.len(),"samples":samples,"setup_error":setup_err,
                  "wall_s":t0.elapsed().as_secs_f64()}));
     std::process::exit(0);
